@@ -295,7 +295,8 @@ def worker(args):
                     out["problems"].append(("search-raises", {"avoid": pt, "alphabet": al}, specrun.exc_info(exc)))
             if rnd.random() < 0.4:
                 specs += upword_specs(rnd)
-            dots = dot_specs(random.Random(rnd.randrange(10**9))) if rnd.random() < 0.5 else []
+            xr = random.Random(seed * 1009 + out["specs"])  # its own stream: the groups above keep theirs
+            dots = dot_specs(random.Random(xr.randrange(10**9))) if xr.random() < 0.5 else []
             out["specs"] += len(specs)
             for name, sp in specs:
                 # reflexivity: all verified classes of these specifications are atoms
@@ -309,7 +310,7 @@ def worker(args):
                     judge_pair(n1, a, n2, b, N, out)
             if specs:
                 judge_pair(specs[0][0], specs[0][1], specs[0][0], specs[0][1], N, out)
-            grams = gram_specs(random.Random(rnd.randrange(10**9))) if rnd.random() < 0.4 else []
+            grams = gram_specs(random.Random(xr.randrange(10**9))) if xr.random() < 0.4 else []
             out["specs"] += len(grams)
             for (n1, a), (n2, b) in itertools.combinations(grams, 2):
                 judge_pair(n1, a, n2, b, min(N, 5), out)
